@@ -63,6 +63,7 @@ PROPERTY_RULES: Dict[str, List[Scoped]] = {
         _r("COST-TRUTH", S_SPFS), _r("READONLY-INPUT", S_SPFS), _r("ITERATOR-REUSE", S_SPFS + S_MODEL), _r("MEMO-KEY", S_SPFS),
         _r("RESULT-UNCONDITIONAL", S_SPFS), _r("OPTIONAL-CHECKED", S_SPFS), _r("NONE-SENTINEL-TRUTH", S_SUBSEQ),
         _r("EVENT-TABLE"), _r("ROOT-ORDER-SOURCE"), _r("COST-GUARD", S_SPFS), _r("CANDIDATE-GUARDS", S_SPFS), _r("OUTPUT-FLAG", S_SPFS),
+        _r("STALE-INPUT", S_SPFS), _r("MASK-RANGE"), _r("SEGMENT-MACHINE"), _r("BIT-ORDER"),
     ],
     "C03": [
         _r("READONLY-DECODE", S_USPFS), _r("COSTKEYS", S_USPFS), _r("PRUNE", S_USPFS), _r("EVENT-SIG", S_USPFS),
@@ -74,6 +75,7 @@ PROPERTY_RULES: Dict[str, List[Scoped]] = {
         _r("COST-TRUTH", S_USPFS), _r("READONLY-INPUT", S_USPFS), _r("ITERATOR-REUSE", S_USPFS + S_MODEL), _r("MEMO-KEY", S_USPFS),
         _r("RESULT-UNCONDITIONAL", S_USPFS), _r("ELEMENT-UPDATE", S_USPFS),
         _r("EVENT-TABLE"), _r("COST-GUARD", S_USPFS), _r("CANDIDATE-GUARDS", S_USPFS), _r("OUTPUT-FLAG", S_USPFS), _r("SET-ALGEBRA-ARGS"),
+        _r("STALE-INPUT", S_USPFS), _r("GAIN-AT-LCA"), _r("TREE-ITER-EXPLICIT", S_USPFS + S_MODEL),
     ],
     "C04": [
         _r("DECODE-GUARD"), _r("DECODE-COMPLETE"), _r("LEAF-ANCHOR"), _r("SENTINEL"), _r("READONLY-DECODE"),
@@ -82,6 +84,7 @@ PROPERTY_RULES: Dict[str, List[Scoped]] = {
         _r("SOLVER-STATELESS", P_SOLVE), _r("MEMO-KEY"), _r("READONLY-INPUT"), _r("ORDER-PRESERVED"), _r("NO-PRUNED-TRAVERSAL", S_COMPUTE + S_MODEL),
         _r("LABEL-GUARD"), _r("RECURSE-FORWARD", S_TREES), _r("ELEMENT-UPDATE"), _r("FIELD-SOURCE"),
         _r("COST-PASSTHROUGH", S_MODEL), _r("GRAPH-KEYS"), _r("SET-ALGEBRA-ARGS"), _r("OUTPUT-FLAG"), _r("KEY-GUARD", S_MODEL + S_COMPUTE),
+        _r("TREE-ITER-EXPLICIT"), _r("GAIN-AT-LCA"),
     ],
     "C05": [
         _r("POLICY-FLOW"), _r("DECODE-PRODUCT"), _r("RESULT-SCOPE"), _r("PRUNE"), _r("UPDATE-PAIRING"),
@@ -94,6 +97,7 @@ PROPERTY_RULES: Dict[str, List[Scoped]] = {
         _r("BASE-EXT-SHARE"), _r("RESULT-UNCONDITIONAL"),
         _r("ENUM-PLACEMENTS"),
         _r("EVENT-TABLE"), _r("ENUM-NO-TRUNCATION", S_COMPUTE), _r("HASH-IDENTITY", S_COMPUTE + S_MODEL), _r("COST-GUARD"), _r("CANDIDATE-GUARDS"),
+        _r("TREE-ITER-EXPLICIT", S_COMPUTE + S_MODEL), _r("HASH-CANONICAL"), _r("UPDATE-ALL-CANDIDATES"),
     ],
     "C06": [
         _r("MODEL-TABLE"), _r("LABEL-SIBLINGS"), _r("EVENT-EXHAUSTIVE"), _r("EVENT-TABLE"), _r("CONSERVED-SIDE"),
@@ -101,6 +105,7 @@ PROPERTY_RULES: Dict[str, List[Scoped]] = {
         _r("SOLVER-STATELESS", S_MODEL + S_TREES + S_SUBSEQ),
         _r("COST-TRUTH", S_MODEL + S_CLI), _r("FIELD-COPY-COMPLETE", S_CLI),
         _r("DERIVED-QUERIES"),
+        _r("SEGMENT-MACHINE"), _r("BIT-ORDER"), _r("COST-NO-ROUNDING"),
     ],
     "C07": [
         _r("LCA-PROPAGATE"), _r("TRAVERSAL", ("compute.reconciliation:reconcile_lca",)),
@@ -108,6 +113,7 @@ PROPERTY_RULES: Dict[str, List[Scoped]] = {
         _r("READONLY-INPUT", ("compute.reconciliation:reconcile_lca",)), _r("COST-TRUTH", S_MODEL),
         _r("MODEL-TABLE", ("model.reconciliation:rec/",)), _r("EVENT-TABLE"),
         _r("RMQ-WINDOWS"), _r("EULER-INDEX"),
+        _r("HASH-CANONICAL"),
     ],
     "C08": [
         _r("TREE-WRITE-ARGS"), _r("FIELDS-SERIALISED"), _r("DICT-KEYS"), _r("FEATURE-COPY"),
@@ -118,6 +124,7 @@ PROPERTY_RULES: Dict[str, List[Scoped]] = {
         _r("RESULT-UNCONDITIONAL", S_SPFS, S_USPFS), _r("FIELD-SOURCE"), _r("SOLVER-STATELESS", S_TREES + S_MODEL),
         _r("BINARIZE-GUARD"), _r("NAME-AS-KEY"), _r("ENUM-NO-TRUNCATION", ("utils.trees:binarize", "utils.trees:graft", "utils.trees:arrange_leaves", "model.reconciliation:")),
         _r("COST-PASSTHROUGH", S_MODEL), _r("COPY-FAITHFUL", S_TREES + S_MODEL),
+        _r("STALE-INPUT"), _r("TREE-ITER-EXPLICIT", S_COMPUTE + S_MODEL + S_TREES),
     ],
     "C09": [
         _r("MIRROR"), _r("CLASS-DOMAIN"), _r("COST-HOMOGENEOUS"), _r("READONLY-DECODE"),
@@ -132,6 +139,7 @@ PROPERTY_RULES: Dict[str, List[Scoped]] = {
         _r("SOLVER-STATELESS", P_SOLVE),
         _r("CLASS-DOMAIN"), _r("MIRROR"),
         _r("EVENT-TABLE"), _r("DECODE-CONTENT-FLOW"), _r("COST-GUARD"), _r("CANDIDATE-GUARDS"),
+        _r("READONLY-INPUT"),
     ],
     "C11": [
         _r("DICT-KEYS"), _r("FIELDS-SERIALISED"), _r("TREE-WRITE-ARGS"), _r("ENUM-DISJOINT"), _r("MAPPING-KEYING"),
@@ -139,6 +147,7 @@ PROPERTY_RULES: Dict[str, List[Scoped]] = {
         _r("COST-TRUTH", S_MODEL), _r("ORDER-PRESERVED"),
         _r("FIELD-SOURCE"),
         _r("KEY-GUARD", S_MODEL), _r("COST-KEY-RESOLUTION"), _r("SORT-KEY-ALIGNED"), _r("COPY-FAITHFUL", S_MODEL),
+        _r("TREE-ITER-EXPLICIT", S_MODEL), _r("HASH-CANONICAL"),
     ],
     "C12": [
         _r("LABEL-GUARD"), _r("REGISTRY-SIGNATURE"), _r("CHOICES-ENUM"),
@@ -146,6 +155,7 @@ PROPERTY_RULES: Dict[str, List[Scoped]] = {
         _r("COST-TRUTH", S_CLI + S_MODEL), _r("FIELD-COPY-COMPLETE", S_CLI), _r("RESULT-SCOPE"),
         _r("LABEL-PASS", ("cli.", "compute.")), _r("LAYOUT-SIDES"), _r("LOSS-WALK"), _r("SORT-KEY-ALIGNED"), _r("RESULT-UNCONDITIONAL"),
         _r("TREE-WRITE-ARGS"), _r("KEY-GUARD", S_CLI + S_MODEL), _r("COST-KEY-RESOLUTION"), _r("ANCHOR-SET"), _r("CLI-FLOW-TABLE"), _r("DRAW-ANCHOR-SIDES"),
+        _r("FEATURE-COPY"), _r("FINITE-ARITH"), _r("COST-NO-ROUNDING"), _r("TREE-ITER-EXPLICIT", S_CLI + S_MODEL),
     ],
     "C13": [
         _r("KIND-EXHAUSTIVE"), _r("KIND-AGREE"), _r("ONE-EVENT-NODE"), _r("ONE-ARROW"), _r("LOSS-MARKERS"),
@@ -154,12 +164,14 @@ PROPERTY_RULES: Dict[str, List[Scoped]] = {
         _r("NO-TOPOLOGY-WRITE"),
         _r("PLACED-IN-SPECIES"),
         _r("LEAF-MAP-DOMAIN"), _r("ANCHOR-SET"), _r("DRAW-ANCHOR-SIDES"),
+        _r("FINITE-ARITH"),
     ],
     "C14": [
         _r("SIGMA-INVARIANCE"), _r("SIGMA-CLOSURE"), _r("SOLVER-STATELESS", ("render.layout:", "utils.geometry:")),
         _r("LOSS-WALK"), _r("LAYOUT-SIDES"),
         _r("NO-TOPOLOGY-WRITE"),
         _r("FINITE-ARITH"), _r("ANCHOR-SET"), _r("SUBTREE-BOX"), _r("DRAW-ANCHOR-SIDES"),
+        _r("READONLY-INPUT", S_RENDER), _r("IDENTITY-KEYS"),
     ],
     "C15": [
         _r("TEMPLATE-BRACES"), _r("TEMPLATE-TERMINATED"), _r("PICTURE-ENV"), _r("COLOR-INTERN"),
@@ -169,16 +181,19 @@ PROPERTY_RULES: Dict[str, List[Scoped]] = {
         _r("ORDER-PRESERVED"), _r("SOLVER-STATELESS", ("utils.text:", "utils.tex:", "render.", "model.synteny:")), _r("MEMO-KEY"),
         _r("LABEL-SOURCE"),
         _r("WIDTH-VERBATIM"),
+        _r("READONLY-INPUT", S_RENDER),
     ],
     "C16": [
         _r("UPDATE-PAIRING"), _r("RETENTION-GUARDS"), _r("POLARITY"), _r("PROXY-NONE"), _r("COMBINE-PRODUCT"),
         _r("TABLE-FRESH-CELLS"),
         _r("ENTRY-OWNS-TAGS"), _r("SOLVER-STATELESS", S_DP),
         _r("ENTRY-CTOR"),
+        _r("UPDATE-ALL-CANDIDATES"),
     ],
     "C17": [
         _r("DERIVED-QUERIES"), _r("EULER-INDEX"), _r("RMQ-WINDOWS"),
         _r("SOLVER-STATELESS", ("utils.trees:LowestCommonAncestor", "utils.trees:_euler", "utils.range_min_query:")),
+        _r("TREE-ITER-EXPLICIT", S_TREES),
     ],
     "C18": [
         _r("BIT-ORDER"), _r("SEGMENT-MACHINE"), _r("SENTINEL", S_SUBSEQ),
@@ -190,6 +205,7 @@ PROPERTY_RULES: Dict[str, List[Scoped]] = {
         _r("SOLVER-STATELESS", ("utils.toposort:",)), _r("MEMO-KEY", ("utils.toposort:",)),
         _r("KAHN-LOOP"),
         _r("TOPO-VERDICT"), _r("ENUM-NO-TRUNCATION", ("utils.toposort:",)),
+        _r("NODE-OPAQUE"),
     ],
     "C20": [
         _r("COPY-BEFORE-MUTATE"),
@@ -198,6 +214,7 @@ PROPERTY_RULES: Dict[str, List[Scoped]] = {
         _r("SOLVER-STATELESS", ("utils.trees:", "utils.disjoint_set:")), _r("OPTIONAL-CHECKED", S_TREES), _r("MEMO-KEY", ("utils.trees:", "utils.disjoint_set:")),
         _r("ITERATOR-REUSE", S_TREES), _r("COPY-FAITHFUL", ("utils.trees:", "utils.disjoint_set:")),
         _r("ENUM-NO-TRUNCATION", ("utils.trees:all_trees", "utils.disjoint_set:")), _r("NAME-AS-KEY"),
+        _r("TREE-ITER-EXPLICIT", S_TREES),
     ],
 }
 
@@ -625,5 +642,27 @@ _DECIDED_ROUND4 = {
         "no one-shot iterator is handed to a parameter that is walked twice (ITERATOR-REUSE across calls); copies are lossless (COPY-FAITHFUL); enumerators have no early stop (ENUM-NO-TRUNCATION); subtrees are not identified by name (NAME-AS-KEY)",
     ],
 }
+_DECIDED_ROUND5 = {
+    'C02': ['inside the loop over refinements only the refinement is read (STALE-INPUT); non-root nodes range over all subsequences of the root order (MASK-RANGE); the segment-distance transducer and the bit order it relies on (SEGMENT-MACHINE, BIT-ORDER)'],
+    'C03': ['gain node of a family = LCA of all its carrier leaves (GAIN-AT-LCA); only the refinement is read inside the refinement loop (STALE-INPUT); no direct iteration of a tree (TREE-ITER-EXPLICIT)'],
+    'C04': ['no direct iteration of a tree - it yields leaves only (TREE-ITER-EXPLICIT); gain nodes are LCAs of all carriers (GAIN-AT-LCA)'],
+    'C05': ['hashes of solutions are insensitive to the order in which a mapping was filled (HASH-CANONICAL); Entry.update examines every candidate offered (UPDATE-ALL-CANDIDATES); no leaf-only iteration of species (TREE-ITER-EXPLICIT)'],
+    'C06': ['the segment-distance transducer used for ordered labelling costs (SEGMENT-MACHINE, BIT-ORDER); costs are never rounded between the command line and the recurrences (COST-NO-ROUNDING)'],
+    'C07': ["the hash of a solution does not depend on the insertion order of its mapping, so the LCA output meets the solvers' outputs in a set (HASH-CANONICAL)"],
+    'C08': ['only the refinement is read inside the refinement loop (STALE-INPUT); no leaf-only iteration (TREE-ITER-EXPLICIT)'],
+    'C10': ['no solver writes into the input it is given - the next solver sees the same problem (READONLY-INPUT)'],
+    'C11': ['mappings are rebuilt from every node they cover, not by iterating a tree (TREE-ITER-EXPLICIT); hashes are order-free (HASH-CANONICAL)'],
+    'C12': ['names and colours are copied onto refinements (FEATURE-COPY); no max/min of an empty collection in the layout (FINITE-ARITH); cost options are not rounded (COST-NO-ROUNDING)'],
+    'C13': ['a species that hosts nothing does not make the layout fail (FINITE-ARITH)'],
+    'C14': ['the layout does not write into the solution it draws, so computing it twice gives the same result (READONLY-INPUT on render); virtual loss nodes compare by identity (IDENTITY-KEYS, also for stand-ins created with arguments)'],
+    'C15': ['the renderer does not write into the solution (escaping is not applied in place) (READONLY-INPUT on render)'],
+    'C16': ['update examines every candidate it is offered, never a pre-selected or truncated batch (UPDATE-ALL-CANDIDATES)'],
+    'C17': ['no direct iteration / len() of a tree in the ancestry structures (TREE-ITER-EXPLICIT)'],
+    'C19': ['vertices are treated as opaque hashable values: never sorted or compared with < (NODE-OPAQUE)'],
+    'C20': ['no direct iteration of a tree (TREE-ITER-EXPLICIT); deep copies of tree nodes use the detaching `.copy()` (COPY-FAITHFUL)'],
+}
+for _k5, _v5 in _DECIDED_ROUND5.items():
+    _DECIDED_ROUND4.setdefault(_k5, [])
+    _DECIDED_ROUND4[_k5] = _DECIDED_ROUND4[_k5] + _v5
 for _k, _v in _DECIDED_ROUND4.items():
     PROPERTY_INFO[_k]["decided"] = list(PROPERTY_INFO[_k]["decided"]) + _v
